@@ -5,7 +5,7 @@
    is the per-atom hypothesis "the printed atom lexes as one token of an atom class whose converter returns the atom",
    which the harness validates on every generated atom against the real strconv and the real lexer. *)
 From Coq Require Import List NArith ZArith Bool.
-From GMK Require Import TableTypes gen.Tables gen.GrammarGen LexDriver LRDriver Grammar Print PrintSpec.
+From GMK Require Import TableTypes gen.Tables gen.GrammarGen LexDriver LRDriver Grammar LexSpec Print PrintSpec.
 Import ListNotations.
 
 (* For EVERY S-expression over printable atoms - proper lists, dotted pairs, improper lists of any length, nested empty
@@ -15,6 +15,33 @@ Theorem C15_print_is_sentence : forall o atom_tok e, atoms_good o atom_tok e ->
   sentence o (print atom_tok e) e.
 Proof. exact (fun o atom_tok e H => proj1 (print_derives o atom_tok e H)). Qed.
 Print Assumptions C15_print_is_sentence.
+
+(* print, then parse: the parser (tables of /repo) accepts the printed tokens and returns the printed expression *)
+Theorem C15_roundtrip : forall o atom_tok e, atoms_good o atom_tok e -> atoms_real atom_tok e ->
+  parse_tokens o (print atom_tok e) = Accept e.
+Proof. exact print_parse. Qed.
+Print Assumptions C15_roundtrip.
+
+(* the same on the bytes of String(), given that the lexer cuts the printed text into the printed tokens - which the
+   correspondence checks on every generated expression (Corr14.check14, case C15Print) *)
+Theorem C15_roundtrip_bytes : forall o atom_tok e, atoms_good o atom_tok e ->
+  lex_bytes (print_bytes atom_tok e) = (print atom_tok e, LEnd) ->
+  parse_bytes o (print_bytes atom_tok e) = Accept e.
+Proof. exact print_parse_bytes. Qed.
+Print Assumptions C15_roundtrip_bytes.
+
+(* ... and prints back to exactly the same text *)
+Theorem C15_reprint : forall o atom_tok e v, atoms_good o atom_tok e -> atoms_real atom_tok e ->
+  parse_tokens o (print atom_tok e) = Accept v -> print atom_tok v = print atom_tok e.
+Proof. exact print_parse_print. Qed.
+Print Assumptions C15_reprint.
+
+(* stability for accepted input: whatever Parse returns on any input, printing it gives a sentence that parses to the
+   same tree again (for trees whose atoms print to good tokens) *)
+Theorem C15_stable : forall o atom_tok bs v, parse_bytes o bs = Accept v ->
+  atoms_good o atom_tok v -> atoms_real atom_tok v -> parse_tokens o (print atom_tok v) = Accept v.
+Proof. exact (fun o atom_tok bs v _ Hg Hr => print_parse o atom_tok v Hg Hr). Qed.
+Print Assumptions C15_stable.
 
 (* non-vacuity, on the expression that the grammar used to reject: (a b . c) *)
 Example C15_print_example :
